@@ -49,6 +49,63 @@ def cargo_env():
     return e
 
 
+HARNESS_REPO_PACKAGES = ["varlink", "varlink_parser", "varlink_generator", "varlink_stdinterfaces"]
+REPO_PACKAGES = ["varlink", "varlink_parser", "varlink_generator", "varlink_derive", "varlink_stdinterfaces",
+                 "varlink-cli", "varlink-certification"]
+
+
+def repo_src_hash():
+    """Content hash of the tree under test (everything but .git and build output)."""
+    import hashlib
+    h = hashlib.sha256()
+    for root, dirs, files in os.walk(REPO):
+        dirs[:] = sorted(d for d in dirs if d not in (".git", "target"))
+        for f in sorted(files):
+            fn = os.path.join(root, f)
+            try:
+                if os.path.islink(fn) or os.path.getsize(fn) > 8 << 20:
+                    continue
+                h.update(os.path.relpath(fn, REPO).encode() + b"\0")
+                with open(fn, "rb") as fh:
+                    h.update(fh.read())
+                h.update(b"\0")
+            except OSError:
+                continue
+    return h.hexdigest()
+
+
+def _force_rebuild_if_sources_changed(target_dir, cwd, packages, extra_env=None):
+    """cargo decides freshness by mtime; a tree whose CONTENT changed while its mtimes did not (restored from a copy, or another
+    checkout mapped onto the same unit hashes) would silently reuse stale objects.  Key the build on a content hash instead."""
+    import hashlib
+    os.makedirs(target_dir, exist_ok=True)
+    stamp = os.path.join(target_dir, ".srchash-" + hashlib.sha1(REPO.encode()).hexdigest()[:12])
+    last = os.path.join(target_dir, ".srchash-last")
+    cur = repo_src_hash()
+    prev = open(stamp).read().strip() if os.path.exists(stamp) else None
+    prev_last = open(last).read().strip() if os.path.exists(last) else None
+    if prev != cur or prev_last != cur:
+        cmd = ["cargo", "clean", "--offline", "--quiet", "--target-dir", target_dir]
+        for pk in packages:
+            cmd += ["-p", pk]
+        e = cargo_env()
+        if extra_env:
+            e.update(extra_env)
+        pc = subprocess.run(cmd, cwd=cwd, env=e, stdout=subprocess.PIPE, stderr=subprocess.STDOUT, text=True)
+        if pc.returncode != 0:
+            raise ToolError("cargo clean failed in %s: %s" % (cwd, pc.stdout[-500:]))
+        for fn in (stamp, last):
+            if os.path.exists(fn):
+                os.unlink(fn)
+    return (stamp, last, cur)
+
+
+def _record_src_hash(tok):
+    stamp, last, cur = tok
+    for fn in (stamp, last):
+        open(fn, "w").write(cur)
+
+
 def build_harness():
     """(Re)generate harness/Cargo.toml for REPO and build `vh`.  Serialised with a file lock."""
     os.makedirs(WORK, exist_ok=True)
@@ -65,11 +122,13 @@ def build_harness():
                 shutil.copyfile(cand, os.path.join(HARNESS, "Cargo.lock"))
                 break
         t0 = time.time()
+        tok = _force_rebuild_if_sources_changed(os.path.join(HARNESS, "target"), HARNESS, HARNESS_REPO_PACKAGES)
         p = subprocess.run(["cargo", "build", "--offline", "--quiet"], cwd=HARNESS, env=cargo_env(),
                            stdout=subprocess.PIPE, stderr=subprocess.STDOUT, text=True)
         if p.returncode != 0:
             log(p.stdout[-6000:])
             raise ToolError("harness build failed against %s" % REPO)
+        _record_src_hash(tok)
         log("[build] harness built against %s in %.1fs" % (REPO, time.time() - t0))
     finally:
         fcntl.flock(lock, fcntl.LOCK_UN)
@@ -90,10 +149,12 @@ def build_repo_bins(packages):
         e = cargo_env()
         # the repository is built with the hook guard on, like the harness
         e["RUSTFLAGS"] = "--cfg %s --check-cfg cfg(%s)" % (GUARD, GUARD)
+        tok = _force_rebuild_if_sources_changed(tdir, REPO, REPO_PACKAGES, {"RUSTFLAGS": e["RUSTFLAGS"]})
         p = subprocess.run(cmd, cwd=REPO, env=e, stdout=subprocess.PIPE, stderr=subprocess.STDOUT, text=True)
         if p.returncode != 0:
             log(p.stdout[-6000:])
             raise ToolError("building %s from %s failed" % (packages, REPO))
+        _record_src_hash(tok)
     finally:
         fcntl.flock(lock, fcntl.LOCK_UN)
         lock.close()
